@@ -661,9 +661,15 @@ func (p *Parser) applyPrefixNewlines(v *lisp.LVal, newlines int, spaces int) {
 			m.BlankLinesBefore = n - 1
 		}
 	} else {
-		if newlines >= 1 {
-			m.NewlineBefore = true
-		}
+		// The prefix token is this node's first token, so it alone measures
+		// the gap in front of the node.  tokenLVal filled these in from the
+		// LAST token consumed (the operand, or the operand's closing bracket),
+		// and only ever setting them here left that stale value standing:
+		// "(a #^(b\n))" reported a newline before #^ that the source does not
+		// have, and Format stopped being idempotent on the longhand spelling
+		// "(a (lisp:expr (b\n)))".
+		m.NewlineBefore = newlines >= 1
+		m.BlankLinesBefore = 0
 		if newlines > 1 {
 			m.BlankLinesBefore = newlines - 1
 		}
